@@ -538,7 +538,13 @@ def copied_prelim_case(rng, res):
         res.fail("oracle", case, {"why": why, "state": state})
 
 
-def stop_products_tree(rng, res):
+# exclude lists handed to record stop (they replace the defaults, so each names the link files itself): patterns
+# anchored at the recording root must not reach a directory of the same name further down
+STOP_EXCLUDES = [None, ["*.link*", "/sub"], None, ["*.link*", "/deep", "/lib"], ["*.link*", "/dist/sub/deep"], ["*.link*", "*.bin", "!app.bin"],
+                 ["*.link*", "/vendor"]]
+
+
+def stop_products_tree(rng, res, no=None):
     """(viii) The final link holds exactly the products present at stop - recorded the way the one-phase command records
     them: a product directory that contains a link to another directory (dist/vendor -> ../vendor-1.2), nested
     directories, a link to a file."""
@@ -557,6 +563,9 @@ def stop_products_tree(rng, res):
     if rng.random() < 0.5:
         tree["dist"][1]["docs"] = ("l", "sub/deep")
     plist = rng.choice([["dist"], ["dist", "m0"], ["."]])
+    excl = STOP_EXCLUDES[no % len(STOP_EXCLUDES)] if no is not None else None
+    if excl and no % 2:
+        plist = ["."]
     root = tempfile.mkdtemp(prefix="verif-c12p-")
     cwd = os.getcwd()
     try:
@@ -583,7 +592,7 @@ def stop_products_tree(rng, res):
                         os.utime(f_, (st0.st_atime + 5, st0.st_mtime + 5))
         try:
             with quiet():
-                rl.in_toto_record_stop("st", plist, signer=k.signer)
+                rl.in_toto_record_stop("st", plist, signer=k.signer, **({"exclude_patterns": list(excl)} if excl else {}))
             pl = Metadata.load("st.%s.link" % k.keyid[:8]).get_payload()
             got = {"ok": sorted([a, b["sha256"]] for a, b in pl.products.items())}
             if sorted(pl.materials.items()) != [("m0", {"sha256": sha_of("material\n")})]:
@@ -593,9 +602,10 @@ def stop_products_tree(rng, res):
     finally:
         os.chdir(cwd)
         shutil.rmtree(root, ignore_errors=True)
-    ref = T.reference_record(tree, plist, list(ist.ARTIFACT_EXCLUDE_PATTERNS), True, False, [])
+    ref = T.reference_record(tree, plist, list(excl or ist.ARTIFACT_EXCLUDE_PATTERNS), True, False, [])
     want = {"ok": sorted([a, b] for a, b in ref[1].items())} if ref[0] == "ok" else {"err": ref[0]}
-    case = {"op": "stop_products_tree", "products": plist, "dsse": dsse, "key": k.kind, "material_between_start_and_stop": m0_change}
+    case = {"op": "stop_products_tree", "products": plist, "dsse": dsse, "key": k.kind, "material_between_start_and_stop": m0_change,
+            "exclude_patterns": excl}
     res.case(dict(case, n_products=len(got.get("ok") or [])), True, got == want, sample_cap=1)
     res.count("stop_products_tree")
     if got != want:
@@ -850,8 +860,8 @@ def shard(seed, idx, n, tier):
         failing_stop_then_retry(rng, res)
     for _ in range(n):
         other_steps_prelim(rng, res)
-    for _ in range(n):
-        stop_products_tree(rng, res)
+    for j_ in range(n):
+        stop_products_tree(rng, res, no=idx * n + j_)
     for _ in range(max(1, n)):
         copied_prelim_case(rng, res)
     from harness import cliequiv
